@@ -7,7 +7,7 @@ _NEW, _OLD = f"{_V}.data", f"old({_V}.data)"
 _HAS_FV, _HAS_SI = f"old(has({_V}.attrs, '_FillValue'))", f"old(has({_V}.attrs, 'start_index'))"
 _FV, _SI = f"old(attr_or({_V}.attrs, '_FillValue', 0))", f"old(attr_or({_V}.attrs, 'start_index', 0))"
 _PAD = f"({_HAS_FV} and {_OLD}[f, j] == {_FV})"
-contract("uxarray.io._ugrid._standardize_connectivity", props=["C01", "C19"],
+contract("uxarray.io._ugrid._standardize_connectivity", props=["C01", "C19", "C07"],
          sizes=["n", "W"],
          params={"ds": "obj('Dataset', owner='self', vars={'face_node_connectivity': \"arr(int, n, W, owner='caller')\"}, "
                        "attrs={'face_node_connectivity': {'_FillValue': 'absent_or(int)', 'start_index': 'absent_or(int)'}})",
